@@ -38,6 +38,9 @@ BASES = {
     "mr_x_cat3": (S.schema2("mr_x_cat3", M2, A3, weighted=True), 1, 2),
     "mr_x_mr": (S.schema2("mr_x_mr", M2, N2, weighted=True), 1, 2),
     "ca_items_x_cats": (Schema("ca_items_x_cats", [CA], [("ca_items", 0), ("ca_cats", 0)], weighted=True), 1, 2),
+    "datetime_x_cat2": (S.schema2("datetime_x_cat2", S.enum("e", "datetime", 3, missing_first=True), B2, weighted=True), 1, 2),
+    "cat3_x_text": (S.schema2("cat3_x_text", A3, S.enum("e", "text", 2), weighted=True), 1, 2),
+    "catdate3_x_mr": (S.schema2("catdate3_x_mr", S.cat("d", 3, "first", date=True), M2, weighted=True), 1, 2),
     "cat3_1d": (Schema("cat3_1d", [A3], [("cat", 0)], weighted=True), 2, 4),
     "mr_1d": (Schema("mr_1d", [M2], [("mr", 0)], weighted=True), 2, 3),
 }
